@@ -157,7 +157,10 @@ func TestVerif_C10_HotReloadChild(t *testing.T) {
 	for {
 		select {
 		case <-p.done:
-			// the Core stopped in an orderly way: the new file (or the resources it asks for) was refused
+			// Core.run closes this channel in a deferred call, which also runs while that goroutine is
+			// panicking: give a dying process the time to die before calling this an orderly stop
+			// (the parent, too, puts a panic in the child's output before any observation)
+			time.Sleep(1500 * time.Millisecond)
 			emit(map[string]any{"err": true, "errMsg": "core stopped after the reload"})
 			return
 		case <-tick.C:
@@ -209,7 +212,8 @@ func TestVerif_C10_HotReload(t *testing.T) {
 			cmd.Stderr = &buf
 			runErr := cmd.Run()
 			b, err := os.ReadFile(childOut)
-			if err == nil {
+			died := runErr != nil && (strings.Contains(buf.String(), "panic:") || strings.Contains(buf.String(), "fatal error:"))
+			if err == nil && !died {
 				var o map[string]any
 				if json.Unmarshal(bytes.TrimSpace(b), &o) == nil {
 					if msg, bad := o["infra"].(string); bad {
